@@ -1,12 +1,15 @@
 \* quick: 2 snaps, compact chains, one multi-snap change from two contexts (empty system; kept [1] and [1,2] with
 \* retain 2, so that the refresh of the second snap garbage-collects), both lane flavours, entry + backend faults
+\* MaxTasks: keep it >= 34 (or tiny).  TaskEngine defines Perms == Permutations(1..N) and TLC evaluates constant
+\* definitions eagerly at start-up: for N = 30 the size (30! mod 2^32 = 1.4e9) fits a heap of 8 GB and TLC spends 10-25
+\* minutes filling it before "Computing initial states"; from N = 34 on N! mod 2^32 = 0 and the definition is skipped.
 SPECIFICATION Spec
 CONSTANTS
     Snaps <- Two
     SnapOrder <- Order2
     MaxRev = 3
     MaxOps = 1
-    MaxTasks = 30
+    MaxTasks = 36
     MaxFaults = 1
     KindOpts <- KAll
     TxnOpts <- BoolFT
